@@ -298,30 +298,37 @@ func ruleConstructorDiscipline(w *World, r *Run, rule, pkg, typ string, ctors []
 func ruleInitBeforeUse(w *World, r *Run, rule string) {
 	type ctor struct{ fn, pkg, typ string }
 	for _, c := range []ctor{{fnWitnessNew, pWitness, "Witness"}, {fnFeedBastion, pBastion, "addHandler"}, {fnNewDist, pRest, "Distributor"}} {
-		initName := c.pkg + ".initMetrics"
-		sums, _, ok := exploreOpaque(w, r, rule, c.fn, 4, 1, initName, fnConnect)
+		// the package's counters and the function(s) that only Once.Do runs to create them
+		names, onces := counterBindings(w, r, c.pkg, rule)
+		if len(names) == 0 || len(onces) == 0 {
+			r.Undecided(rule, c.pkg+" | counters", "", "no counters found")
+			continue
+		}
+		onceNames := map[string]bool{}
+		for f := range onces {
+			onceNames[f.String()] = true
+			onceNames[funcNameOrSSA(f)] = true
+		}
+		// the constructor's first effect on every path is running that Once
+		sums, _, ok := exploreOpaque(w, r, rule, c.fn, 4, 1, fnConnect)
 		if !ok {
 			continue
 		}
 		for _, s := range sums {
-			im := calls(s, initName)
-			first := len(im) >= 1
-			if first {
-				for _, ev := range s.Events {
-					if ev.Kind == "call" && ev.Seq < im[0].Seq && calleePkg(ev.Callee) != "k8s.io/klog/v2" {
-						first = false
-					}
+			first := false
+			for _, ev := range s.Events {
+				if ev.Kind != "call" || calleePkg(ev.Callee) == "k8s.io/klog/v2" {
+					continue
 				}
+				if ev.Callee == "(*sync.Once).Do" && len(ev.Args) == 1 && ev.Args[0] != nil && (ev.Args[0].Kind == "func" || ev.Args[0].Kind == "closure") && onceNames[ev.Args[0].Name] {
+					first = true
+				}
+				break
 			}
-			r.Check(first, rule, c.fn+" | initMetrics runs first on every path", w.pos(s.RetPos), "constructor path does not start with initMetrics(): counters would be nil interfaces and the first Inc would panic")
+			r.Check(first, rule, c.fn+" | the counters are created (under their Once) before anything else on every path", w.pos(s.RetPos), "constructor path does not start by creating the package's counters: they would be nil interfaces and the first Inc would panic")
 		}
 		ruleConstructorDiscipline(w, r, rule, c.pkg, c.typ, []string{c.fn})
-		// initMetrics assigns every counter of the package inside Once.Do
-		names := counterNames(w, r, c.pkg, rule)
-		if len(names) == 0 {
-			r.Undecided(rule, initName, "", "no counters found")
-		}
-		// every counter global of the package that is incremented anywhere is among them
+		// every counter of the package that is incremented through a package-level location is among them
 		for _, fn := range w.prodFns() {
 			if pkgPathOf(fn) != c.pkg {
 				continue
@@ -333,10 +340,9 @@ func ruleInitBeforeUse(w *World, r *Run, rule string) {
 						continue
 					}
 					if u, ok := call.Call.Value.(*ssa.UnOp); ok {
-						if g, ok := u.X.(*ssa.Global); ok {
-							gn := g.Pkg.Pkg.Path() + "." + g.Name()
-							_, inited := names[gn]
-							r.Check(inited, rule, gn+" | incremented counter is initialised by initMetrics", w.pos(in.Pos()), "counter "+g.Name()+" is incremented but never created")
+						if loc := ssaLoc(u.X); loc != nil {
+							_, inited := names[loc.key]
+							r.Check(inited, rule, c.pkg+" counter "+short(loc.String())+" | incremented counter is created under the Once", w.pos(in.Pos()), "counter "+short(loc.String())+" is incremented but never created")
 						}
 					}
 				}
